@@ -316,6 +316,18 @@ func runC11(r *Run) {
 	// the request's context. Whether the request is upgraded depends on the
 	// request alone, so a valid one must still get its 101.
 	halfClose := !noHijack && t.Pct(12)
+	// (only where a protocol will be selected: without a selection Accept has no
+	// value of its own for that header, and what a middleware's line means then is
+	// not the library's business)
+	preset := t.Pct(15)
+	for _, w := range sv.want {
+		if w == "" {
+			preset = false
+		}
+	}
+	if len(sv.want) == 0 || len(sv.offered) == 0 {
+		preset = false
+	}
 	sig := fmt.Sprintf("valid=%v", valid)
 	if noHijack {
 		sig += ",no-hijacker"
@@ -382,6 +394,15 @@ func runC11(r *Run) {
 		mode := websocket.CompressionDisabled
 		if compress {
 			mode = websocket.CompressionContextTakeover
+		}
+		if preset {
+			// a middleware in front of the handler has already written handshake
+			// headers into the response (echoing the offer, as handlers for other
+			// WebSocket packages do): Accept's own values must replace them
+			w.Header().Set("Sec-WebSocket-Protocol", strings.Join(sv.offered, ", "))
+			w.Header().Set("Sec-WebSocket-Accept", "c3RhbGUgdmFsdWUgZnJvbSBiZWZvcmU=")
+			w.Header().Set("Upgrade", "h2c")
+			w.Header().Set("Connection", "keep-alive")
 		}
 		var rw http.ResponseWriter = hijackCounter{w, &hijacks}
 		if noHijack {
@@ -530,6 +551,17 @@ func runC11(r *Run) {
 			want := AcceptKey(strings.TrimSpace(kv.lines[0]))
 			if hdr.Get("Sec-WebSocket-Accept") != want {
 				r.Violate("accept-key", sig, "Sec-WebSocket-Accept %q, want %q", hdr.Get("Sec-WebSocket-Accept"), want)
+			}
+		}
+		if preset {
+			r.S.Count("probe.response-headers-preset-by-middleware")
+			for _, k := range []string{"Sec-WebSocket-Protocol", "Sec-WebSocket-Accept", "Upgrade", "Connection"} {
+				if v := hdr.Values(k); len(v) != 1 {
+					r.Violate("response-headers", sig+",preset", "the 101 response carries %d %s lines %q (a value set on the ResponseWriter before Accept survived next to Accept's own)", len(v), k, v)
+				}
+			}
+			if headerHasToken(hdr, "Upgrade", "h2c") || headerHasToken(hdr, "Connection", "keep-alive") {
+				r.Violate("response-headers", sig+",preset", "the 101 response still carries the Upgrade/Connection values set before Accept: %v", hdr)
 			}
 		}
 		gotProto := hdr.Get("Sec-WebSocket-Protocol")
